@@ -1,9 +1,7 @@
 """C02 -- see DESIGN.md section 5.  Deductive targets are added below the bounded import."""
 PROP = "C02"
 LEVEL = "other"
-EXPLANATION = "under construction: bounded run-time contract checks on the real code; deductive obligations are being added"
-UNDER_CONSTRUCTION = True
-NOT_APPLICABLE = "check under construction in this round (see DESIGN.md section 5 for the plan); not claimed yet"
+EXPLANATION = 'bounded stand-in: token soup over the adversarial alphabet x small formats, single-fault mutations of valid lines; exception classes, lenient totality, lenient == strict on success; conversions raising only ValueError are proved under C07'
 TARGETS = []
 LEMMAS = []
 try:
